@@ -40,7 +40,7 @@ pub(super) broadcast axiom fn axiom_de_state(s: Seq<char>)
 //@ fn store::PaymentState::from
 //@ returns r
 //@ implicit [C06]
-//@ ensures#conversion [C01,C02,C05]
+//@ ensures#conversion [C01,C02,C05,C09,C08]
       match r {
           PaymentState::Free => persist_abs(state) is Free,
           PaymentState::Pending { attempt_id, attempt_time_seconds } =>
